@@ -122,17 +122,22 @@ def judge(rep: Report, traces: list[dict], owners: list[dict]) -> None:
     random.Random(len(traces)).shuffle(order)
     traces[:] = [traces[i] for i in order]
     owners[:] = [owners[i] for i in order]
-    verdicts, st, tr = tlc.validate_traces("Trace_Tty", "Trace_Tty.cfg", traces, batch=max(40, len(traces) // 8 + 1),
+    verdicts, st, tr = tlc.validate_traces("Trace_Tty", "Trace_Tty.cfg", traces, batch=max(40, min(1200, len(traces) // 8 + 1)),
                                            parallel=8, workers=2, timeout=840, name="c12")
     rep.states += st
     rep.transitions += tr
     rep.traces_validated += len(traces)
+    verdict_of = {id(t): v["verdict"] for v, t in zip(verdicts, traces)}
+    probes_ok = 0
     for v, t, o in zip(verdicts, traces, owners):
         if o["kind"] == "probe":
+            rep.traces_validated -= 1
+            if verdict_of.get(o["base"]) != "ok":
+                continue  # the base trace is itself rejected: this probe shows nothing
             if v["verdict"] == "ok":
                 raise tlc.MachineryError("Trace_Tty accepted a corrupted trace (a byte read was altered)")
+            probes_ok += 1
             rep.extra["corrupted_trace_verdict"] = v["verdict"]
-            rep.traces_validated -= 1
             continue
         if v["verdict"] == "ok":
             continue
@@ -147,6 +152,8 @@ def judge(rep: Report, traces: list[dict], owners: list[dict]) -> None:
             f"facts fg={_s(t['term']['fg']['c'])} bg={_s(t['term']['bg']['c'])} name={bytes(t['term']['name'])!r} "
             f"version={bytes(t['term']['ver'])!r} sup={t['term']['sup']}",
             {"kind": o["kind"], "scn": o["scn"], **{k: o[k] for k in ("bursts",) if k in o}})
+    if any(o["kind"] == "probe" for o in owners) and not probes_ok and not rep.violations:
+        raise tlc.MachineryError("no corrupted trace could be judged (self-test of the alarm did not run)")
 
 
 def _s(comps) -> str:
@@ -362,14 +369,16 @@ def main(rep: Report, replay: dict | None) -> None:
         session.close()
     rep.extra["pty_runs"] = n_pty
     lap("pty")
-    # 5. the alarm rings: a corrupted copy of a good trace (one byte read altered) must be rejected
-    probe = next((copy.deepcopy(t) for t in traces if t["mode"] == "virtual" and len(t["events"]) > 20), None)
-    if probe is None:
+    # 5. the alarm rings: corrupted copies of good traces (one byte read altered) must be rejected
+    bases = [i for i, t in enumerate(traces) if t["mode"] == "virtual" and any(ev["call"] == "read" and ev["rdata"] for ev in t["events"])]
+    if not bases and not rep.violations:
         raise tlc.MachineryError("no virtual trace to corrupt")
-    j = next(i for i, ev in enumerate(probe["events"]) if ev["call"] == "read" and ev["rdata"])
-    probe["events"][j]["rdata"] = [probe["events"][j]["rdata"][0] ^ 1]
-    traces.append(probe)
-    owners.append({"kind": "probe", "scn": {}, "origin": "probe"})
+    for i in bases[:: max(1, len(bases) // 5)][:5]:
+        probe = copy.deepcopy(traces[i])
+        j = next(n for n, ev in enumerate(probe["events"]) if ev["call"] == "read" and ev["rdata"])
+        probe["events"][j]["rdata"] = [probe["events"][j]["rdata"][0] ^ 1] + probe["events"][j]["rdata"][1:]
+        traces.append(probe)
+        owners.append({"kind": "probe", "scn": {}, "origin": "probe", "base": id(traces[i])})
     lap("probe")
     judge(rep, traces, owners)
     lap("judge")
